@@ -446,7 +446,7 @@ pub fn run_check(spec: &Spec, tier: Tier, extra_lanes: &[LaneResult]) -> i32 {
             let code = status.and_then(|s| s.code());
             let case: Option<u64> = st.split_whitespace().nth(1).and_then(|s| s.parse().ok());
             match (code, case) {
-                (_, Some(case)) if confirmed_deaths >= 2 => {
+                (_, Some(case)) if confirmed_deaths >= 1 => {
                     // the run already has confirmed hangs/aborts (=> violated): further dead shards
                     // are recorded without spending minutes on re-confirming each of them
                     notes.push(format!("shard {i} also died (exit {:?}) at case {case}; not re-confirmed", code));
@@ -471,7 +471,7 @@ pub fn run_check(spec: &Spec, tier: Tier, extra_lanes: &[LaneResult]) -> i32 {
                             "--only-case",
                             &case.to_string(),
                             "--hang-mult",
-                            "3",
+                            "2",
                         ])
                         .stdout(Stdio::null())
                         .status();
